@@ -197,60 +197,71 @@ def liftLazy (r : Except Err RVal) : Outcome :=
   | .ok rv => .ok (.plain rv.1)
   | .error e => .error (Exc.ofErr e)
 
+/-- `maybe_make` of a C17 expression -/
+def runExpr (e : Expr) (srv : Srv) : Outcome × Srv :=
+  let r := maybeMake e srv.lz
+  (liftLazy r.1, { srv with lz := r.2 })
+
+/-- a request meant for a stateful object whose id is not one: the id is dereferenced in the
+`LazyObject` cache (`_maybe_make(H)`: missing → `LazyObjectMissingError`) and the plain value found
+there does not support the operation (`k`: `TypeError` for `next`, `AttributeError` for `.get`) -/
+def plainFallback (id : Nat) (k : ErrKind) (srv : Srv) : Outcome × Srv :=
+  match objGet id srv.lz with
+  | (.error e, lz') => (.error (Exc.ofErr e), { srv with lz := lz' })
+  | (.ok _, lz') => (.error (Exc.ofErr (.py k)), { srv with lz := lz' })
+
+/-- `iter(value)` of a plain value held in the `LazyObject` cache, as a new server-side iterator -/
+def iterPlain (id : Nat) (srv : Srv) : Outcome × Srv :=
+  match objGet id srv.lz with
+  | (.error e, lz') => (.error (Exc.ofErr e), { srv with lz := lz' })
+  | (.ok (.tup xs, _), lz') => allocObj (.iter ⟨xs, .stop []⟩) { srv with lz := lz' }
+  | (.ok (.str s, _), lz') =>
+    allocObj (.iter ⟨s.toList.map (fun c => .str (String.singleton c)), .stop []⟩) { srv with lz := lz' }
+  | (.ok _, lz') => (.error (Exc.ofErr (.py .type)), { srv with lz := lz' })   -- not iterable
+
+/-- `trace(iter)(H, lazy_result_=True)` -/
+def runIterOf (id : Nat) (srv : Srv) : Outcome × Srv :=
+  match sGet srv.objs (resolve srv.objs id) with
+  | some (.iter _) => allocObj (.alias (resolve srv.objs id)) srv       -- iter(generator) is the generator
+  | some _ => (.error (Exc.ofErr .outOfModel), srv)
+  | none => iterPlain id srv
+
+/-- `trace(next)(H)` -/
+def runNext (id : Nat) (srv : Srv) : Outcome × Srv :=
+  match sGet srv.objs (resolve srv.objs id) with
+  | some (.iter g) =>
+    ((genNext g).1.map .plain, { srv with objs := sSet srv.objs (resolve srv.objs id) (.iter (genNext g).2) })
+  | some _ => (.error (Exc.ofErr (.py .type)), srv)        -- not an iterator
+  | none => plainFallback id .type srv
+
+/-- `H.get()` -/
+def runQGet (id : Nat) (srv : Srv) : Outcome × Srv :=
+  match sGet srv.objs id with
+  | some (.queue q) => ((qGet q).1.map .plain, { srv with objs := sSet srv.objs id (.queue (qGet q).2) })
+  | some _ => (.error (Exc.ofErr (.py .attr)), srv)        -- no attribute `get`
+  | none => plainFallback id .attr srv
+
+/-- `H.get_batch()` -/
+def runQBatch (id : Nat) (srv : Srv) : Outcome × Srv :=
+  match sGet srv.objs id with
+  | some (.queue q) =>
+    ((qGetBatch srv.maxBatch q).1.map .list,
+     { srv with objs := sSet srv.objs id (.queue (qGetBatch srv.maxBatch q).2) })
+  | some _ => (.error (Exc.ofErr (.py .attr)), srv)
+  | none => plainFallback id .attr srv
+
 /-- `lazy_fns.maybe_make(prog)` in the process `srv`. -/
 def run (p : Prog) (srv : Srv) : Outcome × Srv :=
   match p with
-  | .expr e =>
-    let r := maybeMake e srv.lz
-    (liftLazy r.1, { srv with lz := r.2 })
+  | .expr e => runExpr e srv
   | .excValue x => (.ok (.exc x), srv)
   | .raise x => (.error x, srv)
   | .mkGen items fin => allocObj (.iter ⟨items, fin⟩) srv
   | .mkQueue buf fin => allocObj (.queue ⟨buf, fin⟩) srv
-  | .iterOf id =>
-    let t := resolve srv.objs id
-    match sGet srv.objs t with
-    | some (.iter _) => allocObj (.alias t) srv              -- iter(generator) is the generator
-    | some _ => (.error (Exc.ofErr .outOfModel), srv)
-    | none =>
-      -- a plain value held in the LazyObject cache: `_maybe_make(H)` then `iter(value)`
-      match objGet id srv.lz with
-      | (.error e, lz') => (.error (Exc.ofErr e), { srv with lz := lz' })
-      | (.ok (.tup xs, _), lz') => allocObj (.iter ⟨xs, .stop []⟩) { srv with lz := lz' }
-      | (.ok (.str s, _), lz') =>
-        allocObj (.iter ⟨s.toList.map (fun c => .str (String.singleton c)), .stop []⟩) { srv with lz := lz' }
-      | (.ok _, lz') => (.error (Exc.ofErr (.py .type)), { srv with lz := lz' })   -- not iterable
-  | .next id =>
-    let t := resolve srv.objs id
-    match sGet srv.objs t with
-    | some (.iter g) =>
-      let r := genNext g
-      ((r.1.map .plain), { srv with objs := sSet srv.objs t (.iter r.2) })
-    | some _ => (.error (Exc.ofErr (.py .type)), srv)        -- not an iterator
-    | none =>
-      match objGet id srv.lz with
-      | (.error e, lz') => (.error (Exc.ofErr e), { srv with lz := lz' })
-      | (.ok _, lz') => (.error (Exc.ofErr (.py .type)), { srv with lz := lz' })
-  | .qget id =>
-    match sGet srv.objs id with
-    | some (.queue q) =>
-      let r := qGet q
-      ((r.1.map .plain), { srv with objs := sSet srv.objs id (.queue r.2) })
-    | some _ => (.error (Exc.ofErr (.py .attr)), srv)        -- no attribute `get`
-    | none =>
-      match objGet id srv.lz with
-      | (.error e, lz') => (.error (Exc.ofErr e), { srv with lz := lz' })
-      | (.ok _, lz') => (.error (Exc.ofErr (.py .attr)), { srv with lz := lz' })
-  | .qbatch id =>
-    match sGet srv.objs id with
-    | some (.queue q) =>
-      let r := qGetBatch srv.maxBatch q
-      ((r.1.map .list), { srv with objs := sSet srv.objs id (.queue r.2) })
-    | some _ => (.error (Exc.ofErr (.py .attr)), srv)
-    | none =>
-      match objGet id srv.lz with
-      | (.error e, lz') => (.error (Exc.ofErr e), { srv with lz := lz' })
-      | (.ok _, lz') => (.error (Exc.ofErr (.py .attr)), { srv with lz := lz' })
+  | .iterOf id => runIterOf id srv
+  | .next id => runNext id srv
+  | .qget id => runQGet id srv
+  | .qbatch id => runQBatch id srv
 
 /-! ## Pickling: structural copy.  A handle travels as its id (`WVal.href`), nothing else. -/
 
@@ -437,7 +448,16 @@ def decode (env : Env) (rep : Reply) : Except Exc CRes :=
 def getRequest (p : Prog) : Request :=
   { wire := p.dumps, returnException := true, compress := true }
 
+/-- An error raised while the program is *traced*, on the client, before anything is sent:
+`LazyObject.__call__` refuses `cache_result_` together with `lazy_result_` (lazy_fns.py:381-385). -/
+def Prog.traceError : Prog → Option Exc
+  | .expr e => if e.badFlags then some (Exc.ofErr (.py .value)) else none
+  | _ => none
+
 def getResult (p : Prog) (env : Env) (srv : Srv) : Except Exc CRes × Srv :=
+  match p.traceError with
+  | some x => (.error x, srv)
+  | none =>
   if !env.alive0 then (.error connectExc, srv) else
   match env.fate with
   | .ok =>
